@@ -63,6 +63,16 @@ class Model:
         nm = e.id if isinstance(e, ast.Name) else None
         return {self.dst: "dst", self.start: "start", self.end: "end"}.get(nm) if nm else None
 
+    def _is_ancestor(self, e: ast.AST) -> bool:
+        """e names a path the destination folder is built from (dst = e / relative_path)."""
+        nm = e.id if isinstance(e, ast.Name) else None
+        if nm is None or nm == self.dst:
+            return False
+        for n, var, val in self.fa.stores():
+            if var == self.dst and val is not None and any(isinstance(y, ast.Name) and y.id == nm for y in ast.walk(val)):
+                return True
+        return False
+
     def _classify(self, n, nd):
         fa = self.fa
         if nd.kind == "test":
@@ -83,6 +93,8 @@ class Model:
             roles = [self._role(a) for a in args]
             if nm == "rmtree" and "dst" in roles:
                 return ("rmtree", "")
+            if nm == "rmtree" and any(self._is_ancestor(a) for a in args):
+                return ("rmtree-ancestor", ast.unparse(c))
             if nm == "mkdir" and isinstance(f, ast.Attribute) and self._role(f.value) == "dst":
                 return ("mkdir", "")
             if nm == "open" and roles and roles[0] in ("start", "end"):
@@ -146,7 +158,14 @@ def execute(m: Model, start_state) -> Run:
             if kind in ("rmtree", "copy") and st[1] and st[2] and st[3] == "complete":
                 violations.append(("I2", f"{kind} is executed on a folder that carries both markers (a completed automatic copy "
                                          f"is {'deleted' if kind == 'rmtree' else 'redone'}) [{cp}; from {_fmt(start_state)}]"))
-            if kind == "mkdir":
+            if kind == "rmtree-ancestor":
+                violations.append(("I2", f"{k[1]} deletes a folder above the destination: sibling folders under it - completed "
+                                         f"automatic copies of other relative paths and user-provided folders - are destroyed [{cp}]"))
+                ns = EMPTY
+                crash_points.append((f"after:{cp}", ns))
+                nxt_states = [ns]
+                eff = eff + ("rmtree",)
+            elif kind == "mkdir":
                 ns = (True, False, False, "none", "auto") if not dst else st
                 nxt_states = [ns]
                 crash_points.append((f"after:{cp}", ns))
@@ -327,7 +346,7 @@ def run(prog: Program, rep: Report, tier: str):
                    "a copy can begin without a start marker)", clause="C20.I4")
         summaries[fname] = {(_fmt(s)): sorted({(eff, facts.get("was_copied"), facts.get("was_deleted")) for _, facts, eff, _ in r.returns})
                             for s, r in runs.items()}
-        rep.floor(f"persistent states in the crash closure of {fname}", len(runs), 8)
+        rep.floor(f"persistent states in the crash closure of {fname}", len(runs), 5)
     a, b = [summaries[f] for _, f in FUNCS]
     rep.decide(a == b, "I5.twins-agree", prog.func(*FUNCS[1]), "summary", f"equal abstractions over {len(a)} persistent states",
                "the two copy functions behave differently on some persistent state: " + "; ".join(
